@@ -240,6 +240,36 @@ pub fn build_base(b: &BaseEvent) -> BuiltEvent {
         pad_idx.push(idxs);
         pad_msgs.push(PadMsg { board: bi, chip, spec });
     }
+    // A PadWing board that is NOT installed for this run answers with a packet that carries no pad
+    // channel at all (empty, or only reset / fixed-pattern-noise channels): nothing of it lands on a
+    // pad, so no map or calibration is needed and the event must build. Present in every fifth
+    // base event (decided by the event's seed; a separate stream keeps the other draws unchanged).
+    if b.seed % 5 == 2 {
+        let maps = run_maps(b.run);
+        let mut rx = Rng::new(b.seed ^ 0x0bad_b0a4d);
+        let not_installed: Vec<usize> = (0..boards::pwb_boards().len()).filter(|k| !maps.pwb_installed.contains(k)).collect();
+        if !not_installed.is_empty() {
+            let bi = *rx.pick(&not_installed);
+            let board = &boards::pwb_boards()[bi];
+            let chip = rx.below(4) as u8;
+            let req = 200u16;
+            let mut chans: Vec<PwbChannel> = Vec::new();
+            for ri in [1u16, 2, 3, 16, 29, 54, 67] {
+                if daqmodel::enc::pad_channel_of_readout(ri).is_none() && rx.chance(1, 2) {
+                    chans.push(PwbChannel { readout_index: ri, count_field: None, samples: signature(9000 + ri as u64, req as usize, 1725, 100, -2048, 2047) });
+                }
+            }
+            let spec = PwbSpec::well_formed(board.mac, chip, req, chans);
+            let payload = spec.encode();
+            let mut idxs = Vec::new();
+            for c in chunk_message(board.device_id, chip, rx.next_u32(), rx.next_u32() as u16, &payload, *rx.pick(&[65535usize, 1400, 300])) {
+                idxs.push(banks.len());
+                banks.push(BankSpec { name: format!("PC{}", board.name), content: Content::Chunk(c) });
+            }
+            pad_idx.push(idxs);
+            pad_msgs.push(PadMsg { board: bi, chip, spec });
+        }
+    }
     // TRG
     let out = r.next_u32() >> 1;
     let mut t = TrgSpec::simple(r.next_u32(), out);
